@@ -269,13 +269,16 @@ func (m *fStompSubscriberTransport) Unsubscribe() error {
 		return nil
 	}
 
+	// Closing the stop channel ends the delivery goroutine, so the transport is
+	// no longer subscribed from here on — whatever the broker answers. Leaving
+	// isSubscribed set when the broker call fails would let a second Unsubscribe
+	// close the channel again (and panic).
 	close(m.stopC)
+	m.isSubscribed = false
+	m.callback = nil
 	if err := m.sub.Unsubscribe(); err != nil {
 		return thrift.NewTTransportExceptionFromError(err)
 	}
-
-	m.isSubscribed = false
-	m.callback = nil
 	return nil
 }
 
